@@ -148,6 +148,12 @@ func (e *Explorer) Run() {
 			}
 			e.Replayed++
 		}
+		// an execution that ran into the step or time horizon (a spinning or endlessly polling thread:
+		// every check reports it) has tens of thousands of choice points; deviating from each of them
+		// is neither feasible nor needed
+		if r.Outcome == "horizon" {
+			continue
+		}
 		// children, pushed in reverse so that the simplest alternative is explored first
 		first := len(f.prefix)
 		if e.FromMark != "" {
